@@ -160,7 +160,7 @@ def main():
     print("MANIFEST.json: %d checks, %d not_applicable" % (len(checks), len(na)))
 
 
-HOOK_COMMITS = ["3613811", "f304319", "2211f72", "6668f70"]
+HOOK_COMMITS = ["3613811", "f304319", "2211f72", "6668f70", "0328edf"]
 
 if __name__ == "__main__":
     main()
